@@ -628,7 +628,7 @@ impl<'a> GeneratorState<'a> {
                         let right = ExprType::Immediate(1);
                         let newright = self.generate_arithm(expr_type, &op, &right, pos, false)?;
                         let ret = self.generate_assign(expr_type, &newright, pos, false);
-                        if v.var_type == VariableType::Short || (v.var_type == VariableType::CharPtr && !eight_bits) {
+                        if v.var_type == VariableType::Short || v.var_type == VariableType::ShortPtr || (v.var_type == VariableType::CharPtr && !eight_bits) {
                             let newright = self.generate_arithm(expr_type, &op, &right, pos, true)?;
                             self.generate_assign(expr_type, &newright, pos, true)?;
                         }
@@ -702,11 +702,17 @@ impl<'a> GeneratorState<'a> {
                     }
                 }
             },
-            ExprType::AbsoluteY(_) => {
+            ExprType::AbsoluteY(variable) => {
+                let v = self.compiler_state.get_variable(variable);
                 let op = if plusplus { Operation::Add(false) } else { Operation::Sub(false) };
                 let right = ExprType::Immediate(1);
                 let newright = self.generate_arithm(expr_type, &op, &right, pos, false)?;
-                self.generate_assign(expr_type, &newright, pos, false)
+                let ret = self.generate_assign(expr_type, &newright, pos, false);
+                if v.var_type == VariableType::CharPtrPtr || v.var_type == VariableType::ShortPtr {
+                    let newright = self.generate_arithm(expr_type, &op, &right, pos, true)?;
+                    self.generate_assign(expr_type, &newright, pos, true)?;
+                }
+                ret
             },
             _ => {
                 if plusplus {
